@@ -74,13 +74,13 @@ def check_tdvp(case, rec):
 
     v1, E1 = one_call('first call', E0, D_in, n0)
     # metamorphic: the evolved state depends on the input only through the normalised input
-    psi_s = build_mps(dict(case['psi'], scale=case['scale']))
+    psi_s = build_mps(dict(case['psi'], scale=case['scale'] * (case['psi'].get('scale') or 1.0)))
     ns = np.linalg.norm(dense_state(psi_s))
     ret_s = run_integrator(kind, H, psi_s, dt, steps, iters)
     require(abs(float(np.real(ret_s)) - ns) <= 1e-10 * max(1.0, ns), 'scaled input: return value is not the norm of the input', got=float(np.real(ret_s)), want=float(ns))
     vs = dense_state(psi_s)
     sgn = -1.0 if (case['scale'] < 0 and L % 2 == 1) else 1.0   # every site tensor is scaled: overall factor scale^L
-    require(np.linalg.norm(vs - sgn * v1) <= 1e-8, 'evolved state depends on the norm of the input (integrator does not evolve the normalised input)',
+    require(np.linalg.norm(vs - sgn * v1) <= 1e-10, 'evolved state depends on the norm of the input (integrator does not evolve the normalised input)',
             diff=float(np.linalg.norm(vs - sgn * v1)))
     if case['second_call']:
         one_call('second call', E1, psi.bond_dims, 1.0)
@@ -97,7 +97,7 @@ def gen_tdvp(draw, tier):
     c['tau'] = mag * draw(st.sampled_from([1, -1]))
     c['steps'] = draw(st.sampled_from([1, 2, 3, 4]))
     c['iters'] = draw(st.sampled_from([3, 1, 2, 4, 5, 6, 8]))
-    c['scale'] = draw(st.sampled_from([3.7, 0.01, -2.0]))
+    c['scale'] = draw(st.sampled_from([4.0, 0.25, -2.0, 1024.0]))   # powers of two: the scaling is exact in floating point
     c['second_call'] = draw(st.booleans())
     return c
 
